@@ -61,6 +61,14 @@ func scribbleConfig(c *cors.Config) {
 	fill(c.Methods, "EVIL")
 	fill(c.RequestHeaders, "x-evil")
 	fill(c.ResponseHeaders, "x-evil-r")
+	// the scalar fields belong to the caller just as much (Reconfigure receives a pointer to them)
+	c.Credentialed = !c.Credentialed
+	c.MaxAgeInSeconds = 4242
+	c.PreflightSuccessStatus = 222
+	c.PrivateNetworkAccess = !c.PrivateNetworkAccess
+	c.PrivateNetworkAccessInNoCORSModeOnly = !c.PrivateNetworkAccessInNoCORSModeOnly
+	c.DangerouslyTolerateInsecureOrigins = !c.DangerouslyTolerateInsecureOrigins
+	c.DangerouslyTolerateSubdomainsOfPublicSuffixes = !c.DangerouslyTolerateSubdomainsOfPublicSuffixes
 }
 
 const evilOrigin = "https://evil.example"
